@@ -351,6 +351,10 @@ func runC03(p *core.Program, r *core.Report) {
 			rv := path.ReturnValues(rt)[0]
 			if !nonEmpty(b) {
 				c.ob("PT3", fname, "empty heap yields the zero value", p.InstrPos(rt), zeroResult(rv, b), "Pop on an empty heap must return the zero value")
+				// ... and only an empty heap does: the return is guarded by the emptiness test
+				fs := edgeFacts(x, fn, b)
+				isEmpty := hasFact(fs, "len(h.data)", "==", "0") || hasFact(fs, "len(h.data)", "<=", "0") || hasFact(fs, "len(h.data)", "<", "1")
+				c.ob("PT3", fname, "zero value only for the empty heap", p.InstrPos(rt), isEmpty, "Pop returns without removing anything on a path that has not established that the heap is empty: a held element is withheld")
 				continue
 			}
 			okV := false
